@@ -1064,7 +1064,30 @@ func exhaustRule(w *World, r *Report, dfi *FuncInfo) {
 		}
 		k := int64(1 << 30)
 		for _, ch := range children {
-			if m := minInput(w, ch); m < k {
+			m := minInput(w, ch)
+			// the element cannot be smaller than the least size its kind reports
+			if sig, ok := ch.Type().(*types.Signature); ok && sig.Recv() != nil {
+				if ck := w.KindOfType(sig.Recv().Type()); ck != nil && ck.Len != nil {
+					if ls := w.LenSummary(ck); ls != nil && ls.Term != nil {
+						et := w.ExpandLens(ls.Term, 0)
+						lb, okAll := int64(1<<40), true
+						for _, leaf := range leavesUnder(et, nil) {
+							b, ok := leaf.LowerBound()
+							if !ok {
+								okAll = false
+								break
+							}
+							if b < lb {
+								lb = b
+							}
+						}
+						if okAll && lb > m && lb < 1<<40 && !declaredSizeCanWrap(et) {
+							m = lb
+						}
+					}
+				}
+			}
+			if m < k {
 				k = m
 			}
 		}
